@@ -344,7 +344,11 @@ def c28(pid, spec, tier, seed):
             return sorted(re.findall(r'[A-Za-z0-9_]+|[^A-Za-z0-9_\s]', x))
         # name-sorted collections inside the dump may be ordered differently after the renaming: compare as bags too
         want2 = o['cfg'].replace('"%s"' % nm, '"%s"' % new)   # names that merely start with the old name are the user's own
-        n_left0 = sum(1 for t in after if t == (IDENT, nm))
+        # identifiers that are segments of a user type path (A::B::C) are not occurrences of a grammar symbol
+        def symbol_occurrences(seq):
+            return sum(1 for i, t in enumerate(seq) if t == (IDENT, nm)
+                       and not (i > 0 and seq[i - 1][1] == '::') and not (i + 1 < len(seq) and seq[i + 1][1] == '::'))
+        n_left0 = symbol_occurrences(after)
         # non-terminals and scanner states live in separate name spaces: when the name denotes one of each, renaming
         # one of them must leave the other alone
         if ('scanner_name: "%s"' % nm) in o['cfg'] and ('N("%s"' % nm) in o['cfg']:
